@@ -284,7 +284,25 @@ class ObjOps(ToolOps):
                 return isinstance(v, tuple) and v[:1] in (("item",), ("v",))
             if const(left) and const(right):
                 return (left == right) if op == "Eq" else (left != right)
+            # a private marker made by ``object()`` equals nothing but itself (the model's keys and items are plain values)
+            for a, b in ((left, right), (right, left)):
+                if self._is_plain_marker(a) and (const(b) or b is None or self._is_plain_marker(b)):
+                    return (a == b) if op == "Eq" else (a != b)
         return super().compare(op, left, right, env)
+
+    def _is_plain_marker(self, v) -> bool:
+        if not (isinstance(v, tuple) and v[:1] == ("CLSATTR",) and len(v) == 3):
+            return False
+        info = self.ctx.pkg.lib_class(v[1])
+        for st in (info.node.body if info is not None else []):
+            tgt = st.targets[0] if isinstance(st, ast.Assign) and len(st.targets) == 1 else \
+                st.target if isinstance(st, ast.AnnAssign) and st.value is not None else None
+            if isinstance(tgt, ast.Name) and tgt.id == v[2]:
+                val = st.value
+                while isinstance(val, ast.Call) and norm(val.func).split(".")[-1] == "cast" and len(val.args) == 2:
+                    val = val.args[1]
+                return isinstance(val, ast.Call) and norm(val.func) == "object" and not val.args
+        return False
 
     def _wrapper_class(self, name: str):
         return None  # (no shortcut: a key wrapper is an object of its class like any other)
